@@ -13,5 +13,5 @@ CONSTANTS
   InitRate = 6000
   F6Quirk = FALSE
   F7Quirk = FALSE
-INVARIANTS ErrAgree ConformCounters ConformNet ConformChains ConformLogs ReloadOpens ConformShadowCounters ConformShadowChains ConformShadowLogs ExactConservation OraclesHold NeverBroadcastRevoked Conservation
+INVARIANTS ErrAgree ConformCounters ConformNet ConformChains ConformLogs ReloadOpens ConformShadowCounters ConformShadowChains ConformShadowLogs ExactConservation ConformTxLayer OraclesHold NeverBroadcastRevoked Conservation
 CHECK_DEADLOCK TRUE
